@@ -174,6 +174,13 @@ Scenario(opts, cfg) ==
       rqPeer   |-> Eff(cfg.maxpdu),     \* what the requestor must hold as the acceptor's maximum
       acPeer   |-> Eff(opts.maxpdu)]    \* what the acceptor must hold as the requestor's maximum
 
+(* size of an encoded P-DATA-TF PDU (PS3.8 9.3.5): 6 bytes PDU header, and *)
+(* per PDV 4 bytes item length + 1 context id + 1 message control header   *)
+(* + the fragment; pdvs is the sequence of fragment lengths                *)
+RECURSIVE EncodedLenFrom(_, _)
+EncodedLenFrom(pdvs, i) == IF i > Len(pdvs) THEN 0 ELSE 6 + pdvs[i] + EncodedLenFrom(pdvs, i + 1)
+EncodedLen(pdvs) == 6 + EncodedLenFrom(pdvs, 1)
+
 (* send guard: a PDU of n bytes in total (6-byte header included) may go   *)
 (* out iff its PDU-length field n - 6 does not exceed the peer's maximum   *)
 SendAllowed(n, peer) == Leq(n, AddSmall(peer, 6))
